@@ -92,6 +92,9 @@ type spec struct {
 	Client           string
 	Cred             string
 	Verifier         bool
+	VetoAtCreate     bool // the storage's second hook CreateTokenExchangeRequest refuses (invalid_target) after ValidateTokenExchangeRequest passed
+	GrantNil         bool // the storage grants no scope at all: SetCurrentScopes(nil)
+	Extras           bool // the storage also implements CanGetPrivateClaimsFromRequest / CanSetUserinfoFromRequest / ... besides TokenExchangeStorage
 	UISubjectByScope bool // the storage fills UserInfo.Subject of an exchanged ID token only when openid is among the decided scopes
 	NoRefreshVet     bool // the storage trusts the framework's refresh-token look-up instead of re-checking it
 	SigAlg           jose.SignatureAlgorithm
@@ -146,6 +149,11 @@ var scenarios = []spec{
 	{Stratum: "scenario:wrong-secret", SubjKind: "jwt", SubjDeclared: "access", ActorKind: "none", Requested: "access", Policy: vstore.TEAllow, Client: "web", Cred: "wrong-secret", Scope: "openid"},
 	{Stratum: "scenario:impersonated-id_token-without-openid", SubjKind: "jwt", SubjDeclared: "access", ActorKind: "none", Requested: "id", Policy: vstore.TEImpersonate, Client: "web", Cred: "right", Scope: "profile email", UISubjectByScope: true},
 	{Stratum: "scenario:impersonated-jwt-access-token-without-openid", SubjKind: "refresh", SubjDeclared: "refresh", ActorKind: "opaque", ActorDeclared: "natural", Requested: "access", Policy: vstore.TEImpersonate, Client: "web2", Cred: "right", Scope: "api", UISubjectByScope: true},
+	{Stratum: "scenario:veto-at-create", SubjKind: "jwt", SubjDeclared: "access", ActorKind: "none", Requested: "access", Policy: vstore.TEAllow, Client: "web", Cred: "right", Scope: "openid", VetoAtCreate: true},
+	{Stratum: "scenario:veto-at-create-id_token", SubjKind: "refresh", SubjDeclared: "refresh", ActorKind: "none", Requested: "id", Policy: vstore.TEAllow, Client: "web2", Cred: "right", Scope: "openid", VetoAtCreate: true},
+	{Stratum: "scenario:grant-nil-access", SubjKind: "jwt", SubjDeclared: "access", ActorKind: "none", Requested: "access", Policy: vstore.TEAllow, Client: "web2", Cred: "right", Scope: "openid profile email", GrantNil: true, UISubjectByScope: true},
+	{Stratum: "scenario:grant-nil-id_token", SubjKind: "id", SubjDeclared: "id", ActorKind: "none", Requested: "id", Policy: vstore.TEImpersonate, Client: "web", Cred: "right", Scope: "openid profile email", GrantNil: true, UISubjectByScope: true},
+	{Stratum: "scenario:extras-jwt-actor", SubjKind: "jwt", SubjDeclared: "access", ActorKind: "opaque", ActorDeclared: "natural", Requested: "access", Policy: vstore.TEAllow, Client: "web2", Cred: "right", Scope: "openid api", Extras: true},
 	{Stratum: "scenario:kill-subject-then-repeat", SubjKind: "jwt", SubjDeclared: "access", ActorKind: "none", Requested: "access", Policy: vstore.TEAllow, Client: "web2", Cred: "right", Scope: "openid", Follow: "kill-subject-repeat"},
 }
 
@@ -160,6 +168,9 @@ func drawSpec(r *rand.Rand, i int, matrixCases int) spec {
 	s.Verifier = r.IntN(3) == 0
 	s.NoRefreshVet = r.IntN(2) == 0
 	s.UISubjectByScope = r.IntN(2) == 0
+	s.Extras = r.IntN(2) == 0
+	s.VetoAtCreate = r.IntN(12) == 0
+	s.GrantNil = r.IntN(8) == 0
 	s.Scope = pick(r, scopeDim...)
 	s.Audience = pick(r, audienceDim...)
 	s.Resource = pick(r, resourceDim...)
@@ -203,6 +214,30 @@ func drawSpec(r *rand.Rand, i int, matrixCases int) spec {
 	s.Policy = pick(r, vstore.TEAllow, vstore.TEImpersonate)
 	s.Client = pick(r, "web", "web", "web2", "web2", "svc", "post", "jwt")
 	s.Cred = pick(r, "right", "right", "right", "post-right", "basic-right")
+	switch r.IntN(8) {
+	case 0:
+		// the storage's second hook vetoes: an OAuth error for every requested type, nothing issued
+		s.Stratum = "near-valid/veto-at-create"
+		s.VetoAtCreate = true
+		return s
+	case 1:
+		// the storage grants no scope although several known ones were requested
+		s.Stratum = "near-valid/grant-nil"
+		s.GrantNil, s.VetoAtCreate = true, false
+		s.Scope = pick(r, "openid profile email", "profile email api", "openid email phone address", "openid profile email phone address api offline_access")
+		s.UISubjectByScope = r.IntN(4) != 0
+		s.Client = pick(r, "web2", "web2", "web", "svc")
+		s.Cred = pick(r, "right", "right", "basic-right")
+		return s
+	case 2:
+		// exchanged JWT access tokens of a storage with BOTH TokenExchangeStorage and CanGetPrivateClaimsFromRequest must keep act
+		s.Stratum = "near-valid/extras-jwt-actor"
+		s.Extras, s.VetoAtCreate = true, false
+		s.Client, s.Cred = "web2", pick(r, "right", "right", "basic-right")
+		s.ActorKind, s.ActorVariant = pick(r, "opaque", "jwt", "refresh", "id"), ""
+		s.Requested = pick(r, "absent", "access", "refresh")
+		return s
+	}
 	if r.IntN(4) == 0 {
 		// impersonation with a decided scope list that lacks openid: the issued token must still carry the subject
 		// the storage decided (an ID token then gets no subject from the storage's userinfo)
@@ -275,6 +310,7 @@ type exch struct {
 	Scope         string
 	Audience      []string
 	Resource      []string
+	GrantNil      bool // the storage grants no scope for this request
 }
 
 type stepLog struct {
@@ -417,6 +453,9 @@ func expect(e *exch, policy vstore.TEPolicy, impersonateAs string) expectation {
 	if len(x.Scopes) == 0 {
 		x.Scopes = []string{oidc.ScopeOpenID}
 	}
+	if e.GrantNil {
+		x.Scopes = []string{}
+	}
 	x.Issued = e.Requested
 	if x.Issued == "" {
 		x.Issued = tAccess
@@ -483,6 +522,8 @@ func (cr *caseRun) do(e *exch) *opdrv.Tokens {
 		}
 		if policy == vstore.TEVeto {
 			must = append(must, why{"storage veto", "storage-veto"})
+		} else if cr.sp.VetoAtCreate {
+			must = append(must, why{"storage veto at its CreateTokenExchangeRequest hook", "storage-veto"})
 		}
 		switch authenticated {
 		case "no":
@@ -569,6 +610,24 @@ func (cr *caseRun) do(e *exch) *opdrv.Tokens {
 			}
 		}
 		run.Count("refusal_error|"+rn, fmt.Sprintf("%d %s: %s", resp.Status, errCode, desc))
+		// a refused exchange must not have issued anything: no token may have been created at the storage
+		hookVeto := false
+		for _, en := range w.Store.Journal() {
+			switch en.Method {
+			case "CreateTokenExchangeRequest":
+				hookVeto = hookVeto || (en.Err != "" && !en.Fault)
+			case "CreateAccessToken", "CreateAccessAndRefreshTokens":
+				if en.Err == "" {
+					last.Verdict = "violation"
+					cr.violate("refusal-after-token-creation", fmt.Sprintf("the exchange was answered %d %s (%s) but the storage had already created a token for it (%s -> %s)", resp.Status, errCode, desc, en.Method, en.Ret))
+					return nil
+				}
+			}
+		}
+		if hookVeto && cr.sp.VetoAtCreate {
+			run.Observed("refused:storage-veto-at-create:" + rn)
+			run.Count("veto_at_create_refused|"+rn, "requested="+e.ReqDim)
+		}
 		switch {
 		case len(must0) > 0:
 			last.Verdict = "refused as required (" + must0[0].key + ")"
@@ -640,6 +699,15 @@ func (cr *caseRun) do(e *exch) *opdrv.Tokens {
 	}
 	if e.Step != "primary" {
 		run.Observed("success:follow-up")
+	}
+	if e.GrantNil && e.Scope != "\x00" && len(strings.Fields(e.Scope)) > 1 {
+		run.Observed("success:grant-nil:" + rn)
+		run.Observed("success:grant-nil:" + issued)
+		run.Count("grant_nil_success|"+rn, "issued="+issued)
+	}
+	if cr.sp.Extras && e.Actor != nil && issued != "id_token" && strings.Count(toks.Access, ".") == 2 {
+		run.Observed("success:extras-jwt-actor:" + rn)
+		run.Count("extras_jwt_actor_success|"+rn, "issued="+issued)
 	}
 	run.SampleKind("success/"+issued+"/"+actorKind[:min(4, len(actorKind))], last)
 	return toks
@@ -817,6 +885,11 @@ func (cr *caseRun) verifyIssued(e *exch, x expectation, toks *opdrv.Tokens, last
 		if claims.AuthorizedParty != x.Client || actSub(raw["act"]) != x.Actor {
 			return bad("issued:id_token:claims-mismatch", fmt.Sprintf("ID token sub=%q azp=%q act=%v, decided sub=%q client=%q actor=%q", claims.Subject, claims.AuthorizedParty, raw["act"], x.Subject, x.Client, x.Actor))
 		}
+		for sc, claim := range map[string]string{oidc.ScopeProfile: "name", oidc.ScopeEmail: "email", oidc.ScopePhone: "phone_number", oidc.ScopeAddress: "address"} {
+			if _, has := raw[claim]; has && !slices.Contains(x.Scopes, sc) {
+				return bad("issued:id_token:scope-mismatch", fmt.Sprintf("ID token carries the %q claim although the storage decided the scopes %v (requested %q)", claim, x.Scopes, e.Scope))
+			}
+		}
 		run.Count("returned_token_checks", "id-token-ok")
 		run.Count("id_token_token_type", toks.TokenType)
 	}
@@ -854,7 +927,7 @@ func (cr *caseRun) useRefresh(e *exch, x expectation, rt string) {
 func runCase(run *ev.Run, idx, router, matrixCases int) {
 	r := run.CaseRand(stream, idx)
 	sp := drawSpec(r, idx, matrixCases)
-	w, pi := newWorld(keys.Get("op-sig-c15", sp.SigAlg), sp.Verifier)
+	w, pi := newWorld(keys.Get("op-sig-c15", sp.SigAlg), sp.Verifier, sp.Extras)
 	if pi != nil {
 		if pi.InRepo {
 			run.Violation("C15:panic:"+pi.Site(), int64(idx), "constructing the provider panicked: "+pi.Value, map[string]any{"spec": sp})
@@ -865,6 +938,8 @@ func runCase(run *ev.Run, idx, router, matrixCases int) {
 	}
 	w.Store.TENoRefreshVet = sp.NoRefreshVet
 	w.Store.TEUISubByScope = sp.UISubjectByScope
+	w.Store.TEVetoAtCreate = sp.VetoAtCreate
+	w.Store.TEGrantNil = sp.GrantNil
 	c := &caseCtx{w: w, router: router, r: r, prep: []prepOp{}}
 	cr := &caseRun{run: run, idx: idx, c: c, sp: sp}
 
@@ -883,7 +958,7 @@ func runCase(run *ev.Run, idx, router, matrixCases int) {
 		return
 	}
 	e := &exch{Step: "primary", Client: w.cl[sp.Client], Cred: sp.Cred, Subj: subj, Actor: actor, ReqDim: sp.Requested,
-		Scope: sp.Scope, Audience: sp.Audience, Resource: sp.Resource}
+		Scope: sp.Scope, Audience: sp.Audience, Resource: sp.Resource, GrantNil: sp.GrantNil}
 	e.SubjDeclared = typeURN(r, sp.SubjDeclared)
 	if sp.SubjDeclared == "junk" && r.IntN(4) == 0 {
 		e.SubjDeclared = "" // parameter absent
@@ -1007,12 +1082,14 @@ func main() {
 		mandatory = append(mandatory, "success:"+rn+":access_token", "success:"+rn+":refresh_token", "success:"+rn+":id_token",
 			"success:actor:"+rn, "success:impersonate:"+rn, "refresh-usable:"+rn,
 			"impersonated-id_token-without-openid:"+rn, "impersonated-jwt-access-token-without-openid:"+rn,
+			"refused:storage-veto-at-create:"+rn, "success:grant-nil:"+rn, "success:extras-jwt-actor:"+rn,
 			"refused:storage-veto:"+rn, "refused:client-unauthenticated:"+rn, "refused:requested-type-unissuable:"+rn,
 			"refused:subject-dead:"+rn, "refused:subject-garbage:"+rn, "refused:subject-foreign:"+rn, "refused:subject-mistyped:"+rn,
 			"refused:subject-type-unsupported:"+rn, "refused:actor-dead:"+rn, "refused:actor-garbage:"+rn)
 	}
 	mandatory = append(mandatory, "success:subject=opaque/access_token", "success:subject=jwt/access_token", "success:subject=refresh/refresh_token",
-		"success:subject=id/id_token", "success:subject=foreign/jwt", "success:actor=opaque", "success:actor=jwt", "success:actor=refresh", "success:actor=id", "success:follow-up")
+		"success:subject=id/id_token", "success:subject=foreign/jwt", "success:actor=opaque", "success:actor=jwt", "success:actor=refresh", "success:actor=id", "success:follow-up",
+		"success:grant-nil:access_token", "success:grant-nil:refresh_token", "success:grant-nil:id_token")
 	if run.ReplayCase() < 0 {
 		run.Mandatory(mandatory...)
 	}
